@@ -4,6 +4,8 @@ From FV.C11 Require Import Model Entry Proofs.
 From FV.C11.gen Require Import Kernels.
 Import ListNotations.
 Open Scope R_scope.
+(* no sentence of this file may hold the shared Coq build lock for long *)
+Set Default Timeout 240.
 (* ----------------------------------------- reference elements, closed forms *)
 Ltac ref_tac := unfold_all; field.
 Lemma tet_ref : k_element_volumes_tet_like ROps (0,0,0) (1,0,0) (0,1,0) (0,0,1) = 1 / 6.
